@@ -68,7 +68,8 @@ class LoopSpec:
 
 class Contract:
     def __init__(self, qual, params, requires=(), ensures=(), raises=None, assigns=(), returns=None, loops=None,
-                 inline=False, exc_ensures=None, notes="", locals_shapes=None, may_raise=None, ghost_init=None):
+                 inline=False, exc_ensures=None, notes="", locals_shapes=None, may_raise=None, ghost_init=None, name=None):
+        self.name = name or qual  # registry key; variants of one function are "qual#variant"
         self.qual = qual
         self.params = params  # ordered dict name -> shape
         self.requires = list(requires)  # [(name, fn(E))]
@@ -82,6 +83,9 @@ class Contract:
         self.notes = notes
         self.may_raise = may_raise
         self.options = {}
+        self.ghost_results = 0  # trailing components of `returns` that are ghost outputs (visible to ensures/effects only)
+        self.applies = None  # variant selector at call sites: fn(raw env) -> bool
+        self.effects = None  # hook(ex, st, env, result): side effects of higher-order callees (after the frame)
         self.defs = []  # definitional axioms of spec functions (assumed when the function is verified)
         self.ensures_caller = None  # optional weaker view used at call sites
 
@@ -93,7 +97,7 @@ class Registry:
         self.lemmas = []
 
     def add(self, c: Contract):
-        self.contracts[c.qual] = c
+        self.contracts[c.name] = c
         return c
 
 
@@ -108,7 +112,7 @@ class Obl:
         self.name, self.assumptions, self.goal = name, assumptions, goal
         self.kind, self.func, self.line, self.path = kind, func, line, path
         self.inputs = inputs
-        self.extra = extra or {}
+        self.extra = dict(extra or {})
 
 
 # --------------------------------------------------------------------------------------------
@@ -214,6 +218,16 @@ class MapView:
         return self._m.pos_of(to_z3(k))
 
 
+class _PreEnv:
+    """E.pre.<name>: value of a local at loop entry."""
+
+    def __init__(self, env):
+        self._env = env
+
+    def __getattr__(self, k):
+        return sv(self._env[k])
+
+
 class SpecEnv:
     """Environment a spec lambda is evaluated in: E.<local or parameter>, E.old.<param>, E.result."""
 
@@ -231,7 +245,7 @@ class SpecEnv:
             return SpecEnv(o) if o is not None else None
         ex = object.__getattribute__(self, "_extra")
         if k in ex:
-            return sv(ex[k])
+            return ex[k] if isinstance(ex[k], _PreEnv) else sv(ex[k])
         env = object.__getattribute__(self, "_env")
         if k in env:
             return sv(env[k])
@@ -311,6 +325,60 @@ def _clone(v, memo):
     return v  # immutable: scalars, z3, Seq, Opaque, EnumVal, FuncRef, UFun ...
 
 
+def _snapshot(roots):
+    seen = {}
+    stack = list(roots)
+    while stack:
+        v = stack.pop()
+        i = id(v)
+        if i in seen:
+            continue
+        if isinstance(v, dict):
+            seen[i] = (v, dict(v))
+            stack.extend(v.values())
+            if isinstance(v, _ChainEnv):
+                stack.append(v.outer)
+        elif isinstance(v, PyObj):
+            seen[i] = (v, dict(v.fields))
+            stack.extend(v.fields.values())
+        elif isinstance(v, PyList):
+            seen[i] = (v, list(v.v) if isinstance(v.v, list) else v.v)
+            if isinstance(v.v, list):
+                stack.extend(v.v)
+        elif isinstance(v, PyDict):
+            seen[i] = (v, dict(v.d))
+            stack.extend(v.d.values())
+        elif isinstance(v, IntMap):
+            seen[i] = (v, (v.dom, v.val, v.n, v.key_at, v.pos_of))
+        elif isinstance(v, Closure):
+            seen[i] = (v, None)
+            stack.append(v.env)
+        elif isinstance(v, BoundMethod):
+            seen[i] = (v, None)
+            stack.append(v.obj)
+        elif isinstance(v, (tuple, list)):
+            seen[i] = (v, None)
+            stack.extend(v)
+    return seen
+
+
+def _restore(snap):
+    for v, saved in snap.values():
+        if saved is None:
+            continue
+        if isinstance(v, dict):
+            dict.clear(v)
+            dict.update(v, saved)
+        elif isinstance(v, PyObj):
+            v.fields = saved
+        elif isinstance(v, PyList):
+            v.v = saved
+        elif isinstance(v, PyDict):
+            v.d = saved
+        elif isinstance(v, IntMap):
+            v.dom, v.val, v.n, v.key_at, v.pos_of = saved
+
+
 class Raised(Exception):
     """Internal: used only to unwind when *every* path of an inlined pure helper raises."""
 
@@ -341,14 +409,19 @@ class Exec:
         self.npaths = 0
         self.input_syms = None
         self.const_cache = {}
+        self.quiet = 0
+        self.vname = None
 
     # ---------------------------------------------------------------- verification of one function
 
     def verify(self, qual):
         """Generate all obligations of the function `qual` against its contract."""
         c = self.reg.contracts[qual]
+        vname = qual
+        qual = c.qual
         mod, node = self.prog.function(qual)
         self.cur_contract = c
+        self.vname = vname
         self.fn_stack = [(qual, c)]
         self.call_counter = {}
         self.site_counter = {}
@@ -371,7 +444,7 @@ class Exec:
             st.pc.append(self._spec_bool(fn(E), f"def {dname}"))
         n0 = len(self.obls)
         # vacuity: requires must be satisfiable (checked as a special obligation kind 'cover')
-        self.obls.append(Obl(f"{short(qual)}/requires-sat", list(st.pc), None, "cover", qual, node.lineno, ""))
+        self.obls.append(Obl(f"{short(vname)}/requires-sat", list(st.pc), None, "cover", qual, node.lineno, ""))
         # bind defaults for parameters not in the contract
         self._bind_defaults(node, st, mod)
         outs = self.exec_block(node.body, st, mod)
@@ -383,26 +456,28 @@ class Exec:
                 Eo = SpecEnv(s.env, old=s.roots["old"], result=result)
                 for ename, fn in c.ensures:
                     goal = self._spec_bool(fn(Eo), f"ensures {ename}")
-                    self.prove(s, f"{short(qual)}/ensures/{ename}", goal, "ensures", node.lineno)
+                    self.prove(s, f"{short(vname)}/ensures/{ename}", goal, "ensures", node.lineno)
                 # canary: the end of this path must be reachable ("ensures False" must be refuted)
-                self.obls.append(Obl(f"{short(qual)}/canary", list(s.pc), None, "cover", qual, node.lineno, pathid(s)))
+                self.obls.append(Obl(f"{short(vname)}/canary", list(s.pc), None, "cover", qual, node.lineno, pathid(s)))
             elif kind == "raise":
                 exc = payload
                 if exc in c.raises:
                     cond = c.raises[exc]
                     if cond is not None:
                         Eo = SpecEnv(s.env, old=s.roots["old"])
-                        self.prove(s, f"{short(qual)}/raises/{exc}-only-when", self._spec_bool(cond(Eo), "raises"), "raises", node.lineno)
+                        self.prove(s, f"{short(vname)}/raises/{exc}-only-when", self._spec_bool(cond(Eo), "raises"), "raises", node.lineno)
                     for ename, fn in c.exc_ensures.get(exc, []):
                         Eo = SpecEnv(s.env, old=s.roots["old"])
-                        self.prove(s, f"{short(qual)}/on-{exc}/{ename}", self._spec_bool(fn(Eo), ename), "ensures", node.lineno)
+                        self.prove(s, f"{short(vname)}/on-{exc}/{ename}", self._spec_bool(fn(Eo), ename), "ensures", node.lineno)
                 else:
-                    self.prove(s, f"{short(qual)}/raises/no-{exc}", z3.BoolVal(False), "raises", node.lineno)
+                    self.prove(s, f"{short(vname)}/raises/no-{exc}", z3.BoolVal(False), "raises", node.lineno)
             else:
                 raise VCError(f"{qual}: '{kind}' escapes the function body")
         if nret == 0 and not c.raises:
             raise VCError(f"{qual}: no normally terminating path (contradictory contract?)")
         self.npaths += len(outs)
+        for o in self.obls[n0:]:
+            o.extra["vname"] = vname
         return self.obls[n0:]
 
     def _bind_defaults(self, node, st, mod):
@@ -430,6 +505,8 @@ class Exec:
         raise VCError(f"spec clause '{what}' did not evaluate to a Bool: {v!r}")
 
     def prove(self, st, name, goal, kind, line, assume=True, extra=None):
+        if self.quiet:
+            return
         if isinstance(goal, bool):
             goal = z3.BoolVal(goal)
         if z3.is_true(goal):
@@ -442,13 +519,15 @@ class Exec:
 
     def safety(self, st, what, goal, node):
         """Implicit-exception site: goal must hold or the real code raises something undeclared."""
+        if self.quiet:
+            return
         if isinstance(goal, bool):
             if goal:
                 return
             goal = z3.BoolVal(False)
         key = (what, getattr(node, "lineno", 0), getattr(node, "col_offset", 0))
         n = self.site_counter.setdefault(key, len(self.site_counter))
-        fq = short(self.fn_stack[0][0])
+        fq = _vshort(self)
         self.prove(st, f"{fq}/safety/{what}#{n}", goal, "safety", getattr(node, "lineno", 0))
 
     def _opt(self, name, default=False):
@@ -888,7 +967,7 @@ class Exec:
         st.pc.extend(wf)
 
     def _check_inv(self, st, spec, ordinal, phase, line, extra):
-        fq = short(self.fn_stack[0][0])
+        fq = _vshort(self)
         E = SpecEnv(st.env, old=st.roots.get("old"), extra=extra)
         for name, fn in spec.invariants:
             goal = self._spec_bool(fn(E), f"invariant {name}")
@@ -902,7 +981,7 @@ class Exec:
     def _inv_loop(self, stmt, st, mod, spec, ordinal, it):
         """Invariant-cut loop.  For `for` loops the hidden counter `_k` counts completed iterations;
         the loop target names are bound (in invariants) to the *next* element."""
-        fq = short(self.fn_stack[0][0])
+        fq = _vshort(self)
         line = stmt.lineno
         outs = []
         kname = f"_k{ordinal}"
@@ -914,13 +993,15 @@ class Exec:
 
         # 1. invariant holds on entry (counter = 0)
         s0 = st
+        pre_env = _clone(dict(st.env), {})
+        pre = {"pre": _PreEnv(pre_env)}
         if it is not None:
             s0.env[kname] = 0
             try:
                 bind_target(s0, 0, False)
             except VCError:
                 pass
-        self._check_inv(s0, spec, ordinal, "init", line, {})
+        self._check_inv(s0, spec, ordinal, "init", line, pre)
         # 2. arbitrary iteration: havoc, assume invariant
         sh = s0.clone()
         extra_names = set()
@@ -939,7 +1020,7 @@ class Exec:
                 bind_target(sh, k, False)
             except VCError:
                 pass
-        self._assume_inv(sh, spec, {})
+        self._assume_inv(sh, spec, pre)
         dec0 = None
         # 3a. exit path
         s_exit = sh.clone()
@@ -977,7 +1058,7 @@ class Exec:
             c = self.truth(self.eval(stmt.test, s_b, mod), s_b, stmt.test)
             s_b.pc.append(c if not isinstance(c, bool) else z3.BoolVal(c))
         if spec.decreases is not None:
-            dec0 = spec.decreases(SpecEnv(s_b.env, old=s_b.roots.get("old")))
+            dec0 = spec.decreases(SpecEnv(s_b.env, old=s_b.roots.get("old"), extra=pre))
         s_b.trace.append(f"{line}B")
         if self.feasible(s_b.pc):
             # cover: the loop body must be reachable under the invariant (else the invariant is vacuous)
@@ -990,9 +1071,9 @@ class Exec:
                             bind_target(s2, s2.env[kname], False)
                         except VCError:
                             pass
-                    self._check_inv(s2, spec, ordinal, "preserved", line, {})
+                    self._check_inv(s2, spec, ordinal, "preserved", line, pre)
                     if spec.decreases is not None:
-                        dec1 = spec.decreases(SpecEnv(s2.env, old=s2.roots.get("old")))
+                        dec1 = spec.decreases(SpecEnv(s2.env, old=s2.roots.get("old"), extra=pre))
                         self.prove(s2, f"{fq}/dec{ordinal}", z3.And(to_z3(dec1) < to_z3(dec0), to_z3(dec0) >= 0), "decreases", line)
                 elif kind == "break":
                     outs.append(("next", s2, None))
@@ -1151,6 +1232,10 @@ class Exec:
         return PyList(out)
 
     def expr_Dict(self, node, st, mod):
+        if not node.keys and self._opt("empty_dict_is_intmap"):
+            from .values import EmptyMap
+
+            return fresh(EmptyMap(), "dict", [])
         d = PyDict()
         for k, v in zip(node.keys, node.values):
             if k is None:
@@ -1534,6 +1619,14 @@ class Exec:
                     return FuncRef(q)
                 return BoundMethod(o, q)
             raise VCError(f"line {getattr(node, 'lineno', '?')}: object of class {o.cls} has no field/method {attr} (shape in the sidecar is incomplete)")
+        if isinstance(o, _SuperRef):
+            cd = self.prog.module(o.module).classes[o.cls]
+            for b in cd.bases:
+                if isinstance(b, ast.Name):
+                    q = self.prog.resolve_method(o.module, b.id, attr)
+                    if q:
+                        return BoundMethod(o.obj, q)
+            raise Unsupported(f"super().{attr}")
         if isinstance(o, ModuleRef):
             return libmodels.module_attr(self, o, attr, mod)
         if isinstance(o, ClassRef):
@@ -1658,6 +1751,11 @@ class Exec:
 
     def expr_Call(self, node, st, mod):
         f = self.eval(node.func, st, mod)
+        if isinstance(f, Builtin) and f.name == "zip" and len(node.args) == 1 and isinstance(node.args[0], ast.Starred) and not node.keywords:
+            v = self.eval(node.args[0].value, st, mod)
+            sq = self.iter_seq(v, st, node)
+            if not isinstance(sq.length, int):
+                return libmodels.zip_star(self, st, sq, node)
         args = []
         for a in node.args:
             if isinstance(a, ast.Starred):
@@ -1672,6 +1770,13 @@ class Exec:
         return self.call(f, args, kwargs, st, mod, node)
 
     def call(self, f, args, kwargs, st, mod, node):
+        if isinstance(f, Builtin) and f.name == "super" and not args:
+            qual = self.fn_stack[-1][0]
+            m, rest = qual.split(":")
+            cls = rest.split(".")[0]
+            fm, fnode = self.prog.function(qual)
+            selfname = fnode.args.args[0].arg
+            return _SuperRef(st.env[selfname], fm.name, cls)
         if isinstance(f, Builtin):
             return libmodels.call_builtin(self, st, f.name, args, kwargs, node, mod)
         if isinstance(f, BoundMethod):
@@ -1689,6 +1794,23 @@ class Exec:
         if isinstance(f, ClassRef):
             return libmodels.construct(self, st, f, args, kwargs, node, mod)
         raise Unsupported(f"call of {type(f).__name__} at line {getattr(node, 'lineno', '?')}")
+
+    def pure_call(self, f, args, st, node=None):
+        """Value of calling f(*args) without keeping its side effects (heap restored afterwards).
+        Facts learned during the call (callee postconditions on pure terms) stay in the path condition."""
+        if isinstance(f, UFun) and not isinstance(f, libmodels.UFunM):
+            return f.fn(*args)
+        snap = _snapshot([st.env, st.roots, f, list(args)])
+        saved_env = st.env
+        forks0 = len(st.forks)
+        self.quiet += 1
+        try:
+            return self.call(f, list(args), {}, st, None, node)
+        finally:
+            self.quiet -= 1
+            st.env = saved_env
+            del st.forks[forks0:]
+            _restore(snap)
 
     def bind_args(self, fnode, args, kwargs, st_for_defaults, fmod, skip_missing=False):
         a = fnode.args
@@ -1770,9 +1892,22 @@ class Exec:
         st.pc.append(z3.Or(*conds))
         return out
 
-    def call_function(self, qual, args, kwargs, st, node):
+    def contract_for(self, qual, fnode, fmod, args, kwargs, st):
         c = self.reg.contracts.get(qual)
+        if c is not None:
+            return c
+        variants = [v for k, v in self.reg.contracts.items() if v.qual == qual]
+        if not variants:
+            return None
+        env = self.bind_args(fnode, args, kwargs, st, fmod, skip_missing=True)
+        for v in variants:
+            if v.applies is None or v.applies(env):
+                return v
+        raise VCError(f"no contract variant of {qual} applies at this call site")
+
+    def call_function(self, qual, args, kwargs, st, node):
         fmod, fnode = self.prog.function(qual)
+        c = self.contract_for(qual, fnode, fmod, args, kwargs, st)
         if c is None or c.inline:
             # no contract: only allowed for helpers explicitly registered as inline (contract with inline=True)
             if c is None:
@@ -1786,7 +1921,7 @@ class Exec:
         return self.call_by_contract(c, fnode, fmod, args, kwargs, st, node)
 
     def call_by_contract(self, c: Contract, fnode, fmod, args, kwargs, st, node):
-        fq = short(self.fn_stack[0][0])
+        fq = _vshort(self)
         k = self.call_counter.get(c.qual, 0)
         key = ("callsite", id(node))
         if key not in self.const_cache:
@@ -1794,38 +1929,44 @@ class Exec:
             self.call_counter[c.qual] = self.const_cache[key] + 1
         k = self.const_cache[key]
         env = self.bind_args(fnode, args, kwargs, st, fmod)
-        E = SpecEnv(env)
+        # function-valued arguments are seen by the contract as pure functions (their value, not their effects)
+        fview = {}
+        for pn, pv in env.items():
+            if isinstance(pv, (Closure, BoundMethod, FuncRef)):
+                fview[pn] = UFun(pn, (lambda *a, pv=pv: self.pure_call(pv, list(a), st, node)))
+        E = SpecEnv(env, extra=fview)
         for rname, fn in c.requires:
             goal = self._spec_bool(fn(E), f"requires {rname} of {c.qual}")
             self.prove(st, f"{fq}/call#{k}:{short(c.qual)}/pre/{rname}", goal, "precondition", getattr(node, "lineno", 0))
         old = _clone(env, {})
-        # exceptional outcomes
-        for exc, cond in c.raises.items():
+        wf = []
+        result = fresh(c.returns, f"ret_{short(c.qual)}", wf) if c.returns is not None else None
+        st.pc.extend(wf)
+        # exceptional outcomes (conditions are evaluated on the pre-state; ghost results may be mentioned)
+        for exc, cond in (getattr(c, "raises_caller", None) or c.raises).items():
             cs = st.clone()
-            memo_env = None
             if cond is not None:
-                # evaluate the raise condition on the pre-state
-                cz = self._spec_bool(cond(SpecEnv(env, old=old)), "raises")
+                cz = self._spec_bool(cond(SpecEnv(env, old=old, result=result, extra=fview)), "raises")
             else:
                 cz = z3.Bool(uid(f"raises_{exc}"))
             cs.pc.append(cz)
             if self.feasible(cs.pc):
-                # havoc the frame in the raising state too
                 env_c = self.bind_args(fnode, [_clone_into(cs, st, a) for a in args], {k2: _clone_into(cs, st, v) for k2, v in kwargs.items()}, cs, fmod)
                 self._apply_frame(c, env_c, cs)
                 for ename, fn in c.exc_ensures.get(exc, []):
-                    cs.pc.append(self._spec_bool(fn(SpecEnv(env_c, old=old)), ename))
+                    cs.pc.append(self._spec_bool(fn(SpecEnv(env_c, old=old, result=result, extra=fview)), ename))
                 st.forks.append(("raise", cs, exc))
             if cond is not None:
                 st.pc.append(z3.Not(cz))
         # frame
         self._apply_frame(c, env, st)
-        wf = []
-        result = fresh(c.returns, f"ret_{short(c.qual)}", wf) if c.returns is not None else None
-        st.pc.extend(wf)
-        Eo = SpecEnv(env, old=old, result=result)
+        Eo = SpecEnv(env, old=old, result=result, extra=fview)
         for ename, fn in (c.ensures_caller if c.ensures_caller is not None else c.ensures):
             st.pc.append(self._spec_bool(fn(Eo), f"ensures {ename} of {c.qual}"))
+        if c.effects is not None:
+            c.effects(self, st, env, result, node)
+        if isinstance(result, tuple) and getattr(c, "ghost_results", 0):
+            result = result[0] if len(result) - c.ghost_results == 1 else result[: len(result) - c.ghost_results]
         return result
 
     def _apply_frame(self, c, env, st):
@@ -1834,7 +1975,7 @@ class Exec:
             tgt = path_fn(SpecEnvRaw(env))
             if isinstance(tgt, tuple):
                 o, attr = tgt
-                o.fields[attr] = fresh(shape, f"{attr}", wf)
+                o.fields[attr] = fresh(shape, f"{attr}", wf, env=SpecEnvRaw(env))
             elif isinstance(tgt, PyList):
                 tgt.v = fresh(shape, "lst", wf).v
             elif isinstance(tgt, IntMap):
@@ -1867,6 +2008,11 @@ def _has_quant(e):
         stack.extend(x.children())
     _quant_cache[k] = res
     return res
+
+
+class _SuperRef:
+    def __init__(self, obj, module, cls):
+        self.obj, self.module, self.cls = obj, module, cls
 
 
 class SpecEnvRaw:
@@ -2032,6 +2178,10 @@ def _src(node):
 
 def short(qual):
     return qual.split(":", 1)[1] if ":" in qual else qual
+
+
+def _vshort(ex):
+    return short(getattr(ex, "vname", None) or ex.fn_stack[0][0])
 
 
 def pathid(st):
